@@ -110,6 +110,7 @@ pub struct Tower {
     cache: *mut UnboundedCache,
     pub rt: tokio::runtime::Runtime,
     _shutdown: triggered::Trigger,
+    snap_conn: std::sync::Mutex<Option<rusqlite::Connection>>,
 }
 
 // The raw cache pointer is only touched through `monitor`, which is used from one thread at a time.
@@ -209,6 +210,11 @@ impl Tower {
             }
         })?;
 
+        // (mirrors main.rs) persist the bootstrap tip if there was no last known block yet
+        if last_known_block.is_none() {
+            dbm.lock().unwrap().store_last_known_block(&tip.header.block_hash()).unwrap();
+        }
+
         if tip.height < IRREVOCABLY_RESOLVED {
             return Err(BootError::NotEnoughBlocks);
         }
@@ -294,6 +300,7 @@ impl Tower {
             cache,
             rt,
             _shutdown: shutdown_trigger,
+            snap_conn: std::sync::Mutex::new(None),
         })
     }
 
@@ -417,7 +424,11 @@ impl Tower {
     }
 
     pub fn snapshot(&self) -> Snapshot {
-        Snapshot::read(&self.db_path)
+        let mut g = self.snap_conn.lock().unwrap_or_else(|e| e.into_inner());
+        if g.is_none() {
+            *g = Some(rusqlite::Connection::open_with_flags(&self.db_path, rusqlite::OpenFlags::SQLITE_OPEN_READ_ONLY).unwrap());
+        }
+        Snapshot::read_conn(g.as_ref().unwrap())
     }
 }
 
@@ -455,10 +466,14 @@ pub struct TrackerRow {
 impl Snapshot {
     pub fn read(path: &Path) -> Snapshot {
         let conn = rusqlite::Connection::open_with_flags(path, rusqlite::OpenFlags::SQLITE_OPEN_READ_ONLY).unwrap();
+        Self::read_conn(&conn)
+    }
+
+    pub fn read_conn(conn: &rusqlite::Connection) -> Snapshot {
         let mut s = Snapshot::default();
         {
             let mut st = conn
-                .prepare("SELECT user_id, available_slots, subscription_start, subscription_expiry FROM users")
+                .prepare_cached("SELECT user_id, available_slots, subscription_start, subscription_expiry FROM users")
                 .unwrap();
             let mut rows = st.query([]).unwrap();
             while let Ok(Some(r)) = rows.next() {
@@ -470,7 +485,7 @@ impl Snapshot {
         }
         {
             let mut st = conn
-                .prepare("SELECT UUID, locator, encrypted_blob, to_self_delay, user_signature, start_block, user_id FROM appointments")
+                .prepare_cached("SELECT UUID, locator, encrypted_blob, to_self_delay, user_signature, start_block, user_id FROM appointments")
                 .unwrap();
             let mut rows = st.query([]).unwrap();
             while let Ok(Some(r)) = rows.next() {
@@ -489,7 +504,7 @@ impl Snapshot {
         }
         {
             let mut st = conn
-                .prepare("SELECT UUID, dispute_tx, penalty_tx, height, confirmed FROM trackers")
+                .prepare_cached("SELECT UUID, dispute_tx, penalty_tx, height, confirmed FROM trackers")
                 .unwrap();
             let mut rows = st.query([]).unwrap();
             while let Ok(Some(r)) = rows.next() {
@@ -509,7 +524,7 @@ impl Snapshot {
             .ok();
         s.n_keys = conn.query_row("SELECT COUNT(*) FROM keys", [], |r| r.get(0)).unwrap_or(0);
         {
-            let mut st = conn.prepare("PRAGMA foreign_key_check").unwrap();
+            let mut st = conn.prepare_cached("PRAGMA foreign_key_check").unwrap();
             let mut rows = st.query([]).unwrap();
             while let Ok(Some(_)) = rows.next() {
                 s.fk_violations += 1;
